@@ -259,6 +259,7 @@ inductive Outcome where
   | parseError         -- `ObfuscateJSON` returned an error (the policy-mode plugin then hashes the whole body)
   | whole              -- the HAR collector exported `H(body)` for the whole body
   | empty              -- the HAR collector exported the empty body unchanged
+  | clear              -- the body was exported as is (obfuscation switched off in the settings that apply)
   | other
 
 /-- `ObfuscateJSON` (`raw`) / `apiStreamObfuscator.obfuscateBody` (`req`, `resp`) on any body. -/
@@ -282,5 +283,32 @@ def runTxn (H : Str → Str) (ex : List Str) (reqBody respBody : Input) : Outcom
     until it returns): each answer is the function of that call's own arguments only. -/
 def runMany (H : Str → Str) (calls : List (List Str × Input)) : List Outcome :=
   calls.map (fun c => run H .raw c.1 c.2)
+
+/-! ### Policy mode (`runner.RunTask` → `getDiagnoses` → `HARGeneratorPlugin.OnTransaction`) -/
+
+/-- One HAR-exporter diagnosis of the policies file: declared on the matching endpoint or globally,
+    enabled or not, with ITS OWN obfuscation settings. -/
+structure Diag where
+  endpoint : Bool        -- declared under the endpoint (those come first), else global
+  enabled : Bool         -- `diagnosis.enabled`
+  obfuscate : Bool       -- `config.har_exporter.obfuscate.enabled`
+  reqPaths : List Str    -- `…exclusions.request_body_paths`
+  respPaths : List Str   -- `…exclusions.response_body_paths`
+
+/-- `getDiagnoses`: the ENABLED diagnoses, endpoint ones first, each keeping its own settings. -/
+def selectDiagnoses (ds : List Diag) : List Diag :=
+  (ds.filter fun d => d.endpoint && d.enabled) ++ (ds.filter fun d => !d.endpoint && d.enabled)
+
+/-- `HARGeneratorPlugin.extractBody` (after `ensureDecompressedBody`, which only undoes the transfer
+    encoding: the body text is the decompressed one whatever its size). -/
+def extractBody (H : Str → Str) (obfuscate : Bool) (paths : List Str) : Input → Outcome
+  | .json d => if obfuscate then .doc (obfuscateBody H .raw paths d) else .clear
+  | .notJson _ => if obfuscate then .whole else .clear
+
+/-- One transaction in policy mode: one exported record (request body, response content) per selected
+    diagnosis, in order. -/
+def runPolicy (H : Str → Str) (ds : List Diag) (reqBody respBody : Input) : List (Outcome × Outcome) :=
+  (selectDiagnoses ds).map fun d =>
+    (extractBody H d.obfuscate d.reqPaths reqBody, extractBody H d.obfuscate d.respPaths respBody)
 
 end LunarVerif.C16
